@@ -1,4 +1,20 @@
-"""C08 - Network-layer headers and messages encode and decode faithfully."""
+"""C08 - Network-layer headers and messages encode and decode faithfully.
+
+npci_rt            fields -> NPDU.encode -> octets == clause 6.2 reference layout; the reference octets
+                   -> NPDU.decode -> every field and the payload restored
+npci_decode_total  every short octet string: refused with DecodingError when the statement forbids it
+                   (version != 1, SNET = 0xFFFF, SLEN = 0, truncated), decoded to exactly the fields the
+                   layout dictates when a conforming device may send it, either of the two for the rest
+                   (reserved bits, net 0, global broadcast with DADR); whatever decodes is a fixed point
+                   of encode/decode
+npci_mutated       the same obligation on long valid frames with one octet replaced
+netmsg_rt          the 12 message classes: message -> NPDU -> octets == clause 6.4 reference; reference
+                   octets -> NPDU -> npdu_types registry -> message class -> parameters and header restored
+
+Engine notes (measured): octet strings are built as bytes([d.int ...]) of concrete length - a d.bytes()
+value has a symbolic length and every `del pduData[0]` in PDUData.get then costs ~40 solver queries
+(10x slower overall); length octets are pinned to plain ints before the library slices by them (R.pin).
+"""
 from ..api import Inst, Violation, meta
 from ..ref import C08_npci as R
 
@@ -543,6 +559,8 @@ def instances(tier):
         for sk in ('none', 'station'):
             for mk in ('apdu', 'std', 'vendor'):
                 both = dk == 'station' and sk == 'station'
+                if q and mk == 'std' and sk == 'station':
+                    continue    # quick: standard messages behind a source address only in thorough
                 if q:
                     parts = [([2], [2])]
                 elif both:
